@@ -572,6 +572,8 @@ func (r *rewriter) selectStmt(n *ast.SelectStmt) ast.Stmt {
 		c.Body = r.stmts(c.Body)
 		clauses = append(clauses, &ast.CaseClause{List: []ast.Expr{&ast.BasicLit{Kind: token.INT, Value: strconv.Itoa(i)}}, Body: append(pre, c.Body...)})
 	}
+	// a select whose clauses all terminate is a terminating statement; keep that property for the switch
+	clauses = append(clauses, &ast.CaseClause{Body: []ast.Stmt{&ast.ExprStmt{X: call(ast.NewIdent("panic"), &ast.BasicLit{Kind: token.STRING, Value: strconv.Quote("verifrt: bad select index")})}}})
 	init := &ast.AssignStmt{Lhs: []ast.Expr{ast.NewIdent(selName)}, Tok: token.DEFINE, Rhs: []ast.Expr{call(sel("verifrt", "Select"), cases...)}}
 	return &ast.SwitchStmt{Init: init, Tag: &ast.SelectorExpr{X: ast.NewIdent(selName), Sel: ast.NewIdent("Index")}, Body: &ast.BlockStmt{List: clauses}}
 }
